@@ -840,6 +840,38 @@ int main(void) {{
 '''
 
 
+def stage_oracle_default_dirs(rep, cs):
+    """include_dir on one of the compiler's own default include directories (plain and system=True): the flags the real
+    code produces must leave a C++ translation unit that reaches libc through #include_next compilable with the real g++
+    (-isystem on /usr/include breaks libstdc++'s <cstdlib>)."""
+    import subprocess
+    p = subprocess.run(['g++', '-E', '-x', 'c++', '-', '-v'], input='', capture_output=True, text=True)
+    dirs, on = [], False
+    for line in p.stderr.split('\n'):
+        if line.startswith('#include <...> search starts here'):
+            on = True
+        elif line.startswith('End of search list'):
+            on = False
+        elif on and line.strip():
+            dirs.append(os.path.normpath(line.strip()))
+    src = cs.write('#include <cstdlib>\n#include <cmath>\nint main() { return std::abs(-1) == 1 ? 0 : 1; }\n', suffix='.cpp')
+    bad = 0
+    with Tools(default_dirs=dirs) as t:
+        for d in dirs:
+            for system in (False, True):
+                spec = ('include', d, system)
+                flags = [t.canon_flag(f) for f in t.compiler.flags([mk_obj(spec)])]
+                r = subprocess.run(['g++', '-fsyntax-only', '-x', 'c++'] + flags + [src], capture_output=True, text=True, cwd=cs.root)
+                rep.case('defdir:%s:%s' % (d, system), True)
+                if r.returncode != 0:
+                    bad += 1
+                    rep.fail('include_dir(%r, system=%s) -> %r makes g++ fail on <cstdlib>: %s' % (d, system, flags, r.stderr[-200:]),
+                             {'option': list(spec), 'flags': flags, 'tool': 'g++', 'stderr': r.stderr[-600:]},
+                             classes=classify(spec, flags))
+    rep.stage('oracle:default include dirs', dirs=len(dirs), failures=bad)
+    return bad
+
+
 def stage_system(rep, rng, cs):
     """Generated projects with pairwise option placements, configured by the real bfg9000 and built by make."""
     placements = ['global', 'target', 'env']
@@ -935,6 +967,7 @@ def run(rep):
         cs = Compilers(root)
         rbad = stage_r_grammar(rep, rng, cs, thorough)
         found = stage_oracle(rep, rng, cs, thorough or bool(dis))   # wider probe set when the tie broke
+        found = (found or 0) + stage_oracle_default_dirs(rep, cs)
         rep.stage('compilers', invocations=cs.n)
         if thorough:
             stage_system(rep, rng, cs)
